@@ -385,6 +385,77 @@ def run_agent_shutdown(params, known):
     return dict(name=params['name'], evaluations=count, nontrivial_keys=sorted(keys), violations=out_v, known=kn, samples=[])
 
 
+def run_narrow_path(params, known):
+    """Termination under back-pressure: each direction of the connection holds at most `pipe` octets in flight
+    (every write is short and blocks until the peer has read).  One or both users terminate, with and without a
+    transfer under way, under four fair schedules and two read sizes.  Judged by the same monitors as the state
+    graphs (wire sequencing, delivery, termination) on every step and at the end of the run."""
+    import itertools
+    prop = params.get('prop', PROP)
+    violations = []
+    kinds = set()
+    keys = set()
+    count = 0
+    term = ('terminate', 0)
+    s5 = ('send', hexn(5))
+    s40 = ('send', hexn(40, 0x20))
+    loads = {'termA': ([term], []), 'termB': ([], [term]), 'termA|termB': ([term], [term]), 'A5+termA|termB': ([s5, term], [term]),
+             'A40+termA': ([s40, term], []), 'A40|termB': ([s40], [term]), 'A5+termA|B40': ([s5, term], [s40])}
+    for (lname, pipe, chunk, policy, when) in itertools.product(sorted(loads), (1, 2, 3, 7, 16), (9, 10240), ('rr-A', 'rr-B', 'burst-A', 'burst-B'),
+                                                                ('at-once', 'later')):
+        count += 1
+        case = dict(load=lname, pipe=pipe, read_chunk=chunk, schedule=policy, user_calls=when)
+        (sa, sb) = loads[lname]
+        w = TcpclWorld(dict(scripts={'A': list(sa), 'B': list(sb)}, pipe=pipe, chunk=chunk))
+        wire = WireMonitor(prop)
+        dlv = DeliveryMonitor(prop, expect_all=False)
+        w.monitors = [wire, dlv, TerminationMonitor(prop, delivery=dlv, wire=wire), EscapeMonitor(prop)]
+        order = ['A', 'B'] if policy.endswith('A') else ['B', 'A']
+        favoured = order[0]
+        burst = 0
+        steps = 0
+        held = 0
+        found = []
+        while steps < 60000 and not found:
+            steps += 1
+            evs = w.enabled_events()
+            user = [e for e in evs if e[0] == 'user' and w.handler(e[1]).get_session_state() == 'established']
+            runs = {e[1]: e for e in evs if e[0] == 'run'}
+            pick = None
+            if user and (when == 'at-once' or held >= 3 or not runs):
+                pick = user[0]
+                held = 0
+            else:
+                held += 1 if user else 0
+                for name in order:
+                    if name in runs:
+                        pick = runs[name]
+                        burst = burst + 1 if name == favoured else 0
+                        if policy.startswith('rr') or name != favoured or burst >= 4:
+                            order = [n for n in order if n != name] + [name]
+                            burst = 0
+                        break
+            if pick is None:
+                break
+            (vs, _e) = w.apply(pick)
+            found.extend(vs)
+        else:
+            if not found:
+                found.append(Violation(prop, 'termination', 'run-does-not-end', dict(), 'still busy after %d steps' % steps))
+        if not found:
+            found.extend(w.check_final())
+        keys.add('%s/%d/%d/%s/%s' % (lname, pipe, chunk, policy, when))
+        for v in found:
+            if v.kind in kinds:
+                continue
+            kinds.add(v.kind)
+            d = v.as_dict()
+            d['detail'] = '%r: %s' % (case, d['detail'])
+            d['case'] = case
+            violations.append(d)
+    return dict(name=params['name'], evaluations=count, nontrivial_keys=sorted(keys), violations=violations, known=[], samples=[])
+
+
 def build(params):
     if params.get('scripted_peer'):
         return TermPeerWorld(params)
@@ -428,6 +499,8 @@ def scenarios(tier):
             out.append(dict(name=nm, kind='graph', params=dict(scripted_peer=True, role=role, bundles=[hexn(9)], **opts),
                             dev_bound=0, weight=15, max_states=600000, liveness=False))
     for part in range(8):
+        if part == 0:
+            out.append(dict(name='narrow-path', kind='enum', runner='run_narrow_path', params=dict(name='narrow-path'), weight=20))
         nm = 'agent-shutdown-%d/8' % (part + 1)
         out.append(dict(name=nm, kind='enum', runner='run_agent_shutdown', params=dict(name=nm, part=part, parts=8), weight=25))
     if tier == 'thorough':
